@@ -162,6 +162,23 @@ class Evaluator:
             self._msig[name] = list(sigs)[0][0] if len(sigs) == 1 and not list(sigs)[0][1] else None
         return self._msig[name]
 
+    def namedtuples(self):
+        """NamedTuple classes of the repository: ({class: fields}, {field: index} for field names that belong to exactly one of them and to no other class).
+        A NamedTuple IS a tuple: its constructor is the tuple of its arguments and `x.field` is `x[index]`."""
+        if not hasattr(self, "_nt"):
+            classes, owners = {}, {}
+            for cname, cis in self.prog.class_index.items():
+                for ci in cis:
+                    if any(b.split(".")[-1] == "NamedTuple" for b in ci.bases):
+                        flds = list(ci.fields)
+                        classes[cname] = flds
+            for cname, flds in classes.items():
+                for i, f_ in enumerate(flds):
+                    owners.setdefault(f_, []).append(i)
+            other = {f_ for cname, cis in self.prog.class_index.items() if cname not in classes for ci in cis for f_ in list(ci.fields) + list(ci.methods)}
+            self._nt = (classes, {f_: ix[0] for f_, ix in owners.items() if len(ix) == 1 and f_ not in other})
+        return self._nt
+
     def fluent(self):
         """GenerativeFunction's fluent forwarders, read off their bodies: `def m(self, p..): return genjax.g(self, p..)` and
         `def m(self, p..): return genjax.g(k=p, ..)(self)`.  -> ({g: (m, params)} for the direct form, {g: (m, {k: p}, params)} for the decorator form).
@@ -592,6 +609,8 @@ def mk_elem(it):
 
 
 def mk_attr(ev: Evaluator, base, name):
+    if name in ev.namedtuples()[1] and base != P("self") and not is_t(base, "global") and not is_t(base, "ctor"):
+        return mk_proj(base, ev.namedtuples()[1][name])  # x.field of a NamedTuple is x[index]
     if is_t(base, "ctor"):
         cis = ev.prog.class_index.get(base[1].split(":")[-1], [])
         for ci in cis:
@@ -1533,6 +1552,11 @@ class _Ctx:
                 if r is not None:
                     return r
         # repo class -> constructor
+        if short in ev.namedtuples()[0] and (name.startswith("genjax") or "." not in name) and "**" not in kwargs and not any(is_t(x, "star") for x in args):
+            flds_nt = ev.namedtuples()[0][short]
+            vals = list(args) + [kwargs[f_] for f_ in flds_nt[len(args):] if f_ in kwargs]
+            if len(vals) == len(flds_nt):
+                return mk_tuple(vals)  # a NamedTuple is the tuple of its fields
         if short in ev.prog.class_index and (name.startswith("genjax") or "." not in name):
             # Cls(a, field=b) is Cls(a, b): keywords naming the next dataclass fields become positional
             cis_ = ev.prog.class_index[short]
